@@ -10,9 +10,10 @@
 
    Events (recorded from the real stack built with the public Executors API):
      Layer(k = index from the bottom, s = type, a = max_attempts | count | timeout, xs = <<fn, efn, poll mode>>)
-       fn:  0 absent, 1 tags, 2 raises, 4 returns a non-future (flat_map), 5 returns a future resolved later
+       fn:  0 absent, 1 tags, 2 raises, 4 returns a non-future (flat_map), 5 returns a future resolved later,
+            6 returns None (map: a value like any other, term <<-5>>)
        efn: 0 absent, 1 tags, 2 raises a new exception, 3 re-raises the same exception,
-            4 (flat_map) returns a future that already failed with an exception of its own
+            4 (flat_map) returns a future that already failed with an exception of its own, 6 returns None
      Sub(f, xs = script: 0 value, 1 exception in the retry policy's exception_base, 2 other exception)
      Args(f, xs = ids of the positional arguments, a = number of keyword arguments)
      Invoke(f, k, xs, a) / InvokeEnd(f, k, a = kind, b = id of the value / exception object)
@@ -72,9 +73,11 @@ Run(st, f, level, n) ==
                     i == ly.k
                 IN <<CASE t = "map" ->
                             IF r.ok THEN (IF fn = 1 THEN Ok(<<1000 + i>> \o r.term)
-                                          ELSE IF fn = 2 THEN Fail(9, -1, i, 2) ELSE r)
+                                          ELSE IF fn = 2 THEN Fail(9, -1, i, 2)
+                                          ELSE IF fn = 6 THEN Ok(<<-5>>) ELSE r)
                             ELSE (IF efn = 1 THEN Ok(<<2000 + i, ExcCode(r)>>)
-                                  ELSE IF efn = 2 THEN Fail(9, -1, i, 2) ELSE r)
+                                  ELSE IF efn = 2 THEN Fail(9, -1, i, 2)
+                                  ELSE IF efn = 6 THEN Ok(<<-5>>) ELSE r)
                        [] t = "flat_map" ->
                             IF r.ok THEN (IF fn \in {1, 5} THEN Ok(<<1000 + i>> \o r.term)
                                           ELSE IF fn = 2 THEN Fail(9, -1, i, 2)
